@@ -377,6 +377,13 @@ func (it *stringIter) next(m *Machine) tuple {
 	if it.i >= len(it.b) {
 		return tuple{false, nil, nil}
 	}
+	// symbolic bytes reaching rune decoding (string validators, trimming, …)
+	// are fixed to one representative value each; noted in the evidence
+	for j := it.i; j < len(it.b) && j < it.i+4; j++ {
+		if isSym(it.b[j]) {
+			it.b[j] = m.representative(it.b[j], "string byte inspected rune-wise")
+		}
+	}
 	c, ok := it.b[it.i].(uint8)
 	if !ok {
 		panic(unsupported{"range over string with symbolic bytes"})
